@@ -24,6 +24,9 @@ fn main() {
         );
         return;
     }
+    if args.flag("noop") {
+        return;
+    }
     if args.flag("c06-one") {
         c06::run_one(args.num("seed", 1), args.num("idx", 0));
         return;
